@@ -17,6 +17,7 @@ package license
 import (
 	"crypto/rand"
 	"encoding/base64"
+	"errors"
 	"math"
 	"math/big"
 	"time"
@@ -65,6 +66,10 @@ func parseV1(data string) (*V1, error) {
 	}
 
 	// Get the expiration time
+	if len(raw) < 32 {
+		return nil, errors.New("license: the license provided is too short")
+	}
+
 	expiry := int64(be.Uint32(raw[24:28]))
 	if expiry > 0 {
 		expiry = timeOffset + expiry
